@@ -97,6 +97,9 @@ func Load(dir string) (*Prog, error) {
 		}
 	}
 	sort.Slice(p.ModFuncs, func(i, j int) bool { return FuncKey(p.ModFuncs[i]) < FuncKey(p.ModFuncs[j]) })
+	AllModFuncs = p.ModFuncs
+	fieldStoresMemo = nil
+	allocsMemo = nil
 	p.LoadSecs = time.Since(t0).Seconds()
 	return p, nil
 }
